@@ -294,6 +294,37 @@ theorem isolation (s : Server) (hi : SInv s) (p q : Handle) (hpq : q ≠ p) (jp 
     rw [← heq] at h2
     exact hdis ⟨o.1, h1, h2⟩
 
+/-- `list_reply_is_current_content` — after an accepted publication request the list reply of the
+publisher is the former list reply with the delta applied (all of it, including what is not yet
+visible in RRDP), and a refused request leaves it as it was. -/
+theorem list_reply_is_current_content (s : Server) (hi : SInv s) (h : Handle) (d : Delta)
+    (hok : OpOk (.publish h d)) :
+    ((s.publish h d).2 = .ok → ∀ k, ((s.publish h d).1.list h).get? k = (applyDelta (s.list h) d).get? k) ∧
+    ((s.publish h d).2 ≠ .ok → (s.publish h d).1.list h = s.list h) := by
+  refine ⟨fun hacc k => ?_, fun hrej => by rw [(publish_atomic s h d).1 hrej]⟩
+  obtain ⟨jail, hj, hd⟩ := (publish_accepted_iff s h d).mp hacc
+  unfold Server.publish
+  rw [hj]
+  simp only
+  rcases hd with rfl | hv
+  · simp only [List.isEmpty_nil, ↓reduceIte]
+    unfold applyDelta Delta.ordered
+    rfl
+  · by_cases he : d.isEmpty = true
+    · have : d = [] := List.isEmpty_iff.mp he
+      subst this
+      simp only [List.isEmpty_nil, ↓reduceIte]
+      unfold applyDelta Delta.ordered
+      rfl
+    · simp only [he, Bool.false_eq_true, ↓reduceIte]
+      unfold Server.list at hv
+      rw [hv]
+      simp only
+      show (objectsFor ((s.rrdp.stage h d).current h) ((s.rrdp.stage h d).stagedOf h)).get? k = _
+      rw [stagedOf_stage]
+      simp only [↓reduceIte]
+      exact (staging_refines _ _ jail d (hi.r.wf h) (hi.r.canon h) hok.1 hok.2 hv).1 k
+
 /-- F-C10-1: without disjoint jails isolation fails.  Handles may contain `/`; `a` and `a/b`
 are both accepted, the jail of `a` contains the jail of `a/b`, and `a` may publish the very URI
 `a/b` holds: the repository then has two objects for one URI. -/
@@ -407,5 +438,84 @@ theorem remove_exact (s : Server) (hi : SInv s) (h : Handle) :
     have hinv := hi.r.removePublisher h
     rw [current_applyUpdated hinv.stagedNodup hinv.snapNodup]
     exact hlist k
+
+/-- Isolation over histories: whatever the other publishers request (publications, additions and
+removals of other publishers), and through RRDP updates and session resets, the list reply of
+`q` – everything `q` has – stays exactly as it is. -/
+theorem isolation_history (q : Handle) : ∀ (ops : List Op) (s : Server), SInv s →
+    (∀ op ∈ ops, OpOk op ∧ match op with
+      | .addpub h => h ≠ q
+      | .rmpub h => h ≠ q
+      | .publish h _ => h ≠ q
+      | .update _ => True
+      | .reset _ _ => True
+      | .delete _ _ => False) →
+    (s.run ops).list q = s.list q := by
+  intro ops
+  induction ops with
+  | nil => intro s _ _; rfl
+  | cons op t ih =>
+    intro s hi hok
+    have hstep : (s.step op).list q = s.list q := by
+      have ho := (hok op (by simp)).2
+      cases op with
+      | addpub h =>
+        simp only at ho
+        simp only [Server.step, Server.addPublisher]
+        cases publisherBase s.base h with
+        | none => rfl
+        | some jail =>
+          simp only
+          split
+          · rfl
+          · show objectsFor ((s.rrdp.publisherAdded h).current q) ((s.rrdp.publisherAdded h).stagedOf q) = _
+            rw [current_publisherAdded]
+            have : (s.rrdp.publisherAdded h).stagedOf q = s.rrdp.stagedOf q := by
+              unfold Rrdp.publisherAdded; split <;> rfl
+            rw [this]; rfl
+      | rmpub h =>
+        simp only at ho
+        exact ((remove_exact s hi h).2.2.1 q (Ne.symm ho)).1
+      | publish h d =>
+        simp only at ho
+        rcases (publish_atomic s h d) with ⟨h1, h2⟩
+        by_cases hr : (s.publish h d).2 = .ok
+        · rcases h2 hr with h3 | h3
+          · simp only [Server.step]; rw [h3]
+          · simp only [Server.step]; rw [h3]; exact objectsFor_stage_ne _ _ _ _ (Ne.symm ho)
+        · simp only [Server.step]; rw [h1 hr]
+      | update rnd =>
+        simp only [Server.step, Server.update]
+        split
+        · rfl
+        · split
+          · rfl
+          · exact (rrdp_update_preserves s hi _ rnd q).1
+      | reset sess rnd => rfl
+      | delete del rndOf => exact absurd ho (by simp)
+    have := ih (s.step op) (hi.step (hok op (by simp)).1) (fun o ho => hok o (by simp [ho]))
+    simp only [Server.run, List.foldl_cons] at this ⊢
+    rw [this, hstep]
+
+/-- Non-vacuity: a history of another publisher (with an RRDP update and a session reset) meets
+the hypotheses for `q = ca`. -/
+example :
+    let u : Uri := ⟨rsyncLower, ⟨"h", 0⟩, ⟨"m", 0⟩, ["cb", "a.cer"], false⟩
+    ∀ op ∈ ([.addpub ["cb"], .publish ["cb"] [.publish u ⟨1, 10⟩], .update 2, .reset 2 3] : List Op),
+      OpOk op ∧ match op with
+        | .addpub h => h ≠ ["ca"]
+        | .rmpub h => h ≠ ["ca"]
+        | .publish h _ => h ≠ ["ca"]
+        | .update _ => True
+        | .reset _ _ => True
+        | .delete _ _ => False := by
+  intro u op hop
+  simp only [List.mem_cons, List.mem_nil_iff, or_false] at hop
+  rcases hop with rfl | rfl | rfl | rfl
+  · exact ⟨trivial, by decide⟩
+  · refine ⟨⟨fun e he => ?_, List.pairwise_singleton _ _⟩, by decide⟩
+    simp only [List.mem_singleton] at he; subst he; rfl
+  · exact ⟨trivial, trivial⟩
+  · exact ⟨trivial, trivial⟩
 
 end KM.Props.C10
